@@ -313,6 +313,10 @@ func (o *sfObj) listAt(b []os.FileInfo, off int64) (int, error) {
 	defer o.leave()
 	fs.gate(false, fmt.Sprintf("listat:%03d:%06d", o.id, off))
 	if err := fs.record(sfCall{Method: "ListAt", Obj: o.id, Off: off, N: len(b), Filepath: o.path}); err != nil {
+		if fs.partialErr && len(b) > 0 && off >= 0 && off < int64(len(o.names)) {
+			fs.sim.count("fault.backend.partial-list")
+			return copy(b[:1], o.names[off:]), err
+		}
 		return 0, err
 	}
 	if off < 0 || off >= int64(len(o.names)) {
